@@ -6,7 +6,9 @@
 (* State: the configuration under which the compiler runs -- working        *)
 (* directory, TMPDIR, unrelated environment variables, ASLR, MALLOC_PERTURB_,*)
 (* how the tool and the source are addressed (relative / absolute path),    *)
-(* the number of times the same configuration has been run -- and the       *)
+(* whether the working directory holds unrelated files that carry the      *)
+(* names of the program's modules (decoys), the number of times the same    *)
+(* configuration has been run -- and the                                    *)
 (* `artifact` the compiler produces for the fixed source under that          *)
 (* configuration.  The environment actions change the configuration; the    *)
 (* property is that none of them changes the artifact:                      *)
